@@ -387,21 +387,32 @@ fn revert_step(shape: &[usize], npend: usize, ntop: usize, nbase: Option<usize>,
     // expected facts after a rebuilding revert: base ; updates of the first idx commands
     let empty: Level = [None; NK];
     let mut want = flat_of(&empty, &base);
+    // Vectors are built with `vec![..]` (one typed boxed array each) rather than by pushes into a
+    // with_capacity buffer: CBMC then keeps lengths and fat pointers constant when the real code
+    // reads them back (measured: the push variant of this harness exceeded 14 GB).
     let mut ids = [0u8; 4];
+    let mut cmds: [Option<CommandData>; 2] = [None, None];
     let mut i = 0;
     while i < nc {
-        let mut updates: Vec<Update> = Vec::with_capacity(shape[i] + 1);
-        let mut j = 0;
-        while j < shape[i] {
-            let u = any_upd();
-            updates.push(mk_update(u));
-            if i < idx {
-                apply(&mut want, u);
+        let u0 = any_upd();
+        let u1 = any_upd();
+        if i < idx {
+            if shape[i] >= 1 {
+                apply(&mut want, u0);
             }
-            j += 1;
+            if shape[i] >= 2 {
+                apply(&mut want, u1);
+            }
         }
+        let updates: Vec<Update> = if shape[i] == 0 {
+            Vec::new()
+        } else if shape[i] == 1 {
+            alloc::vec![mk_update(u0)]
+        } else {
+            alloc::vec![mk_update(u0), mk_update(u1)]
+        };
         ids[i] = kani::any();
-        p.commands.push(CommandData {
+        cmds[i] = Some(CommandData {
             id: cmd_id(ids[i]),
             priority: Priority::Basic(0),
             policy: None,
@@ -410,11 +421,17 @@ fn revert_step(shape: &[usize], npend: usize, ntop: usize, nbase: Option<usize>,
         });
         i += 1;
     }
-    let mut j = 0;
-    while j < npend {
-        p.current_updates.push(mk_update(any_upd()));
-        j += 1;
-    }
+    p.commands = match (cmds[0].take(), cmds[1].take()) {
+        (Some(a), Some(b)) => alloc::vec![a, b],
+        (Some(a), None) => alloc::vec![a],
+        _ => Vec::new(),
+    };
+    assert!(npend <= 1);
+    p.current_updates = if npend == 1 {
+        alloc::vec![mk_update(any_upd())]
+    } else {
+        Vec::new()
+    };
     let r = p.revert(Checkpoint { index: idx });
     assert!(r.is_ok());
     // commands: exactly the first idx, in order; nothing pending any more
